@@ -273,7 +273,7 @@ impl Prop for EarlyStop {
     }
 
     fn rule(&self) -> String {
-        "one run = one seeded case (generated game x method x parameter set x budget N <= 24 quick / 40 thorough x sampling seed x K in {1 (bit-exact), 2..4 (tolerances)} x scheduler policy), executed as ONE simulated execution: prefix solves with budgets 0..N and threshold 0 give the bound history; then solves with r in {-1, 0, NaN, +inf} and 8 thresholds drawn from {b_t(1-eps), b_t, b_t(1+eps)} must equal the prefix run with budget t* = first t with max bound < r (N if none); every threshold that is reached within N iterations is also run with budget u64::MAX (unlimited) and N+1e9 and must give the same prefix. Every run is non-trivial (>= 12 thresholded solves judged); distinct = distinct (configuration, scheduler-decision sequence) hashes".into()
+        "one run = one seeded case (generated game x method x parameter set x budget N <= 24 quick / 40 thorough x sampling seed x K in {1 (bit-exact), 2..4 (tolerances)} x scheduler policy), executed as ONE simulated execution: prefix solves with budgets 0..N and threshold 0 give the bound history (budget 0 must leave both bounds infinite); then solves with r in {-1, 0, NaN, +inf} and 8 thresholds drawn from {b_t(1-eps), b_t, b_t(1+eps)} must equal the prefix run with budget t* = first t with max bound < r (N if none); every threshold that is reached within N iterations is also run with budget u64::MAX (unlimited) and N+1e9 and must give the same prefix. Every run is non-trivial (>= 12 thresholded solves judged); distinct = distinct (configuration, scheduler-decision sequence) hashes".into()
     }
 
     fn assumptions(&self) -> Vec<String> {
